@@ -2837,6 +2837,10 @@ def groupby_reduce(
                 # when provided with cohorts, we *always* 'merge'
                 merge=(method == "cohorts"),
             )
+            if method is None and reindex.blockwise is True and agg.chunk[0] is not None:
+                # the user asked to reindex at the blockwise step; only "map-reduce" supports that
+                preferred_method = "map-reduce"
+                chunks_cohorts = {}
         else:
             preferred_method = "map-reduce"
             chunks_cohorts = {}
